@@ -61,6 +61,8 @@ pub struct TrainRun {
     pub fric_force_max: f64,
     /// friction-brake force per saved step (speed-limited runs), and at the end of the run
     pub fric_force: Vec<f64>,
+    /// the sim's braking points at the end of the run: (offset, speed_limit, speed_target)
+    pub braking_points: Vec<(f64, f64, f64)>,
     pub final_state: Option<TrainState>,
     /// where the final stopping curve (braking points whose target is 0) begins, read from
     /// the sim's own braking points at the end of the run
@@ -89,6 +91,7 @@ impl TrainRun {
             getters: HashMap::new(),
             fric_force_max: 0.0,
             fric_force: vec![],
+            braking_points: vec![],
             final_state: None,
             stop_curve_start: None,
         }
@@ -190,6 +193,7 @@ pub fn run_case(case: &TrainCase) -> TrainRun {
         run.fric_force.push(sim.fric_brake.state.force.value);
         run.final_state = Some(sim.state);
         run.stop_curve_start = stop_curve_start(&sim);
+        run.braking_points = braking_points_of(&sim);
         if std::env::var("VERIF_DUMP").is_ok() {
             let n = run.states.len();
             let from: usize = std::env::var("VERIF_DUMP_FROM").ok().and_then(|s| s.parse().ok()).unwrap_or(n.saturating_sub(8));
@@ -332,6 +336,60 @@ pub fn stop_curve_start(sim: &SpeedLimitTrainSim) -> Option<f64> {
         .filter(|p| p["speed_target"].as_f64() == Some(0.0))
         .filter_map(|p| p["offset"].as_f64())
         .fold(None, |m: Option<f64>, x| Some(m.map_or(x, |y| y.min(x))))
+}
+
+pub fn braking_points_of(sim: &SpeedLimitTrainSim) -> Vec<(f64, f64, f64)> {
+    let Ok(v) = serde_json::to_value(&sim.braking_points) else { return vec![] };
+    v.get("points")
+        .and_then(|p| p.as_array())
+        .map(|pts| pts.iter().filter_map(|p| Some((p["offset"].as_f64()?, p["speed_limit"].as_f64()?, p["speed_target"].as_f64()?))).collect())
+        .unwrap_or_default()
+}
+
+/// Root-cause discriminator for overspeed failures: is the braking curve the sim laid out
+/// consistent with what it is documented to be built from?  For every pair of consecutive
+/// curve points that is one backward step of 1 s (offset relation holds), the speed gained
+/// over the step must equal (maximum friction-brake force + train resistance at the point's
+/// position and speed) / compound mass, with the resistance taken from the reference model
+/// of C07 (elevation / curvature walked over the route's own points, train occupying
+/// [x - L, x]).  Returns (pairs checked, description of the first deviating pair).
+pub fn braking_curve_deviation(rc: &RunCtx) -> (usize, Option<String>) {
+    let t = &rc.case.train;
+    let length = t.length();
+    let w = G * t.mass_static();
+    let m_c = t.mass_static() + t.mass_rot();
+    let f = rc.run.fric_force_max;
+    let mut checked = 0usize;
+    let mut first = None;
+    for p in rc.run.braking_points.windows(2) {
+        let ((x0, v0, _), (x1, v1, _)) = (p[0], p[1]);
+        let dv = v1 - v0;
+        if !(dv > 0.0) || !(x1 < x0) {
+            continue;
+        }
+        // a normal curve step: x1 = x0 - dt (v0 + dv / 2) with dt = 1 s
+        let dt = (x0 - x1) / (v0 + 0.5 * dv);
+        if (dt - 1.0).abs() > 1e-9 {
+            continue;
+        }
+        let xb = x0 - length;
+        if xb < 0.0 || x0 > rc.run.offset_end + 1e-9 {
+            continue;
+        }
+        let res_code = dv * m_c / dt - f;
+        let res_ref = t.rolling_ratio() * w
+            + t.bearing_force()
+            + t.davis_b() * v0 * w
+            + t.cd_area() * RHO_AIR * v0 * v0
+            + w * (rc.elev.eval(x0) - rc.elev.eval(xb)) / length
+            + w * (rc.curve.eval(x0) - rc.curve.eval(xb)) / length;
+        checked += 1;
+        let tol = 1e-6 * (f.abs() + 0.03 * w) + 1e-2;
+        if (res_code - res_ref).abs() > tol && first.is_none() {
+            first = Some(format!("curve point at {x0} m, {v0} m/s: step gains {dv} m/s = brake {f} N + resistance {res_code} N over compound mass {m_c} kg, reference resistance {res_ref} N"));
+        }
+    }
+    (checked, first)
 }
 
 /// `walk()` = save_state + walk_internal; both are needed separately for the link-by-link
